@@ -206,7 +206,7 @@ static Outcome run_offsets(const SpecCase& c) {
         return o;
     }
     // ... and rejects any other offsets (checked policies)
-    bool perturbed = false;
+    bool perturbed = false, forked = false;
     if (cfg.checked) {
         for (std::size_t m = 0; m < w.meths.size() && o.ok; ++m) {
             auto& mi = w.meths[m];
@@ -229,6 +229,51 @@ static Outcome run_offsets(const SpecCase& c) {
                 g_log.clear();
                 ErrorRec e = guarded(
                     [&] { mi.desc->call(args.objs, args.ints, nullptr); });
+                // with a handler that returns, the call must still be
+                // rejected: the program aborts rather than carry on with the
+                // wrong offset (forked child, once per case)
+                if (!forked && !cfg.throw_facet) {
+                    forked = true;
+                    fflush(nullptr);
+                    pid_t pid = fork();
+                    if (pid == 0) {
+                        int devnull = open("/dev/null", O_WRONLY);
+                        if (devnull >= 0) {
+                            dup2(devnull, 2);
+                        }
+                        signal(SIGABRT, sigabrt_probe);
+                        cfg.set_handler_mode(1);
+                        g_log.clear();
+                        try {
+                            mi.desc->call(args.objs, args.ints, nullptr);
+                        } catch (...) {
+                            _exit(44);
+                        }
+                        _exit(g_log.empty() ? 45 : 46);
+                    }
+                    int status = 0;
+                    waitpid(pid, &status, 0);
+                    int code = WIFEXITED(status) ? WEXITSTATUS(status) : -1;
+                    if (code != 42) {
+                        *cell = saved;
+                        o.fail(std::string("offsets-check-no-abort: method#") +
+                               std::to_string(m) + "(" +
+                               shape_table()[ms.shape].str +
+                               "): a wrong static " +
+                               (k < arity ? "slot" : "stride") +
+                               " was reported to a handler that returned, "
+                               "and instead of aborting " +
+                               (code == 46      ? "a definition body ran"
+                                    : code == 45 ? "the call returned"
+                                    : code == 44
+                                    ? "an exception escaped"
+                                    : "the child ended with status " +
+                                        std::to_string(status)));
+                        break;
+                    }
+                    o.classes.push_back(
+                        "perturbed_offsets_with_returning_handler");
+                }
                 *cell = saved;
                 perturbed = true;
                 auto want = k < arity ? ErrorRec::static_slot
